@@ -825,8 +825,8 @@ def register_cut_tree(R):
         E.prove("cut_tree/step/listed-iff-designated", z3.ForAll([x], z3.Implies(Rg(x), z3.Exists([j], z3.And(j >= 0, j < ln, sel(A, j) == x)) == RMc(x))), "annotation")
         base = Rm(0) == RMc(0)
         step = z3.ForAll([x], z3.Implies(z3.And(Rg(x), x != 0, Rm(sel(P, x)) == RMc(sel(P, x))), Rm(x) == RMc(x)))
-        E.prove("cut_tree/step/closure-agrees-at-the-root", base, "annotation")
-        E.prove("cut_tree/step/closure-agrees-below-an-agreeing-parent", step, "annotation")
+        E.prove("cut_tree/induction-premise/closure-agrees-at-the-root", base, "lemma")
+        E.prove("cut_tree/induction-premise/closure-agrees-below-an-agreeing-parent", step, "lemma")
         E.assume(z3.Implies(z3.And(base, step), z3.ForAll([x], z3.Implies(Rg(x), Rm(x) == RMc(x)))))
         E.assumptions.add("assumed-lemma:tree_induction (depth witness) instantiated for P(x) = (closure of the listed removals at x == designation of cut_tree's enter form at x)")
 
@@ -1086,8 +1086,8 @@ def register_cut_by_type(R):
         E.prove("CutByType.__call__/step/a-kept-node-keeps-its-parent", z3.ForAll([x], z3.Implies(z3.And(Rg(x), x != 0, sel(keep, x)), sel(keep, sel(P, x)))), "annotation")
         base = Rm(0) == z3.Not(sel(keep, 0))
         step = z3.ForAll([x], z3.Implies(z3.And(Rg(x), x != 0, Rm(sel(P, x)) == z3.Not(sel(keep, sel(P, x)))), Rm(x) == z3.Not(sel(keep, x))))
-        E.prove("CutByType.__call__/step/closure-agrees-at-the-root", base, "annotation")
-        E.prove("CutByType.__call__/step/closure-agrees-below-an-agreeing-parent", step, "annotation")
+        E.prove("CutByType.__call__/induction-premise/closure-agrees-at-the-root", base, "lemma")
+        E.prove("CutByType.__call__/induction-premise/closure-agrees-below-an-agreeing-parent", step, "lemma")
         E.assume(z3.Implies(z3.And(base, step), z3.ForAll([x], z3.Implies(Rg(x), Rm(x) == z3.Not(sel(keep, x))))))
         E.assumptions.add("assumed-lemma:tree_induction (depth witness) instantiated for P(x) = (closure of CutByType's final removals at x == not keep[x])")
 
@@ -1311,8 +1311,8 @@ def register_order_call(R):
         for nm, Pq in (("closure-is-carried-level-at-or-above-the-order", P1), ("carried-level-agrees-with-the-furcation-level", P2)):
             base = Pq(z3.IntVal(0))
             step = z3.ForAll([x], z3.Implies(z3.And(Rg(x), x != 0, Pq(sel(P, x))), Pq(x)))
-            E.prove(pre + nm + "/at-the-root", base, "annotation")
-            E.prove(pre + nm + "/below-an-agreeing-parent", step, "annotation")
+            E.prove(pre.replace("/step/", "/induction-premise/") + nm + "/at-the-root", base, "lemma")
+            E.prove(pre.replace("/step/", "/induction-premise/") + nm + "/below-an-agreeing-parent", step, "lemma")
             E.assume(z3.Implies(z3.And(base, step), z3.ForAll([x], z3.Implies(Rg(x), Pq(x)))))
         E.assumptions.add("assumed-lemma:tree_induction (depth witness) instantiated twice in CutByFurcationOrder.__call__: closure == carried level >= order; carried level vs furcation level")
 
@@ -1635,7 +1635,7 @@ def register_short_tip_call(R):
         t = v["x"]
         seed = seed_pred(E, ctx, t)
         P = col(t, "pid").arr
-        A, ln = list_view(v["removals"])
+        A, ln = list_view(recorder_list(v))
         at = G6(E).fields["at"].arr
         a, c = z3.Int(fresh_name("a")), z3.Int(fresh_name("c"))
         mem = lambda q: z3.And(seed(q), sel(LEFT, sel(P, q)))
@@ -1668,7 +1668,7 @@ def register_short_tip_call(R):
         c = ctx.kid(x, k)
         E.assume(z3.ForAll([k], z3.Implies(z3.And(0 <= k, k < ctx.nkids(x)), z3.And(z3.Select(args.none, k) == z3.Not(TC(c)), z3.Select(args.node, k) == c,
                                                                                    z3.Implies(TC(c), z3.Select(args.dis, k) == LEN(c))))))
-        A, ln = list_view(v["removals"])
+        A, ln = list_view(recorder_list(v))
         # ghost definition (recursion over the naturals): CNT(j) = how many of the first j children of x start a short tip branch
         CNT = z3.Function(fresh_name("CNT"), I, I)
         j = z3.Int(fresh_name("j"))
@@ -1695,9 +1695,17 @@ def register_short_tip_call(R):
         return (fresh("real", "root_len"), Obj(Tree.Node, dict(attach=live, idx=fresh("int", "root_at"), names=t.fields["names"])))
 
     def recorder_list(fr_or_vars):
+        """the list the recording callback appends to: the free variable X of `lambda br: X.append(...)`, last entry of self.callbacks
+        (found through the closure, so that the carrier's local may have any name)"""
+        import ast as _ast
+
         me = fr_or_vars.lookup("self") if hasattr(fr_or_vars, "lookup") else fr_or_vars["self"]
         lam = me.fields["callbacks"].items[-1]
-        return lam.frame.lookup("removals")
+        body = getattr(lam.node, "body", None)
+        name = "removals"
+        if isinstance(body, _ast.Call) and isinstance(body.func, _ast.Attribute) and isinstance(body.func.value, _ast.Name):
+            name = body.func.value.id
+        return lam.frame.lookup(name)
 
     def for_inv(which):
         """_leave's loop over the child results at x: `removals` has grown by exactly the short tip-chain children among the first k,
@@ -1743,7 +1751,7 @@ def register_short_tip_call(R):
         if st is None or "at_old" not in st:
             return
         x, A0, r0, ctx, CNT, memx = st["x"], st["A0"], st["r0"], st["ctx"], st["CNT"], st["memx"]
-        A, ln = list_view(v["removals"])
+        A, ln = list_view(recorder_list(v))
         at1, at0 = G6(E).fields["at"].arr, st["at_old"]
         P = ctx.P
         a, c = z3.Int(fresh_name("a")), z3.Int(fresh_name("c"))
@@ -1820,10 +1828,10 @@ def register_short_tip_call(R):
           requires=[K["wf_clause"](w, "x") for w in K["WF"]],
           ensures=[(LABEL.get(nm, nm), post(nm)) for nm in POSTS],
           inlined_loops={LEAVE: {0: FOR_LOOP, 1: K["WALK_LOOP"]}},
-          options=dict(traverse_rule=Rule(J, Ql=Ql, modifies=[("removals", "int"), G6], leave_args=leave_args, leave_result=leave_result, ghost_leave=ghost_leave),
+          options=dict(traverse_rule=Rule(J, Ql=Ql, modifies=[lambda E: (recorder_list(E.cur_frame), "int"), G6], leave_args=leave_args, leave_result=leave_result, ghost_leave=ghost_leave),
                        models=ext_C06.MODELS,
                        hints={"post/a-furcation-is-a-node-that-two-distinct-rows-name-as-parent": furc_hint, "loop0/preserved/earlier-entries-kept-and-one-new-entry-per-short-tip-chain-child-so-far": for_hint, "leave/invariant-preserved": leave_hint,
-                              "post/removed-iff-first-node-of-a-tip-branch-within-the-threshold-at-a-furcation-or-below-a-removed-node": listed_hint}),
+                              }),
           notes="_leave is interpreted from source (inlined) under the traverse rule for ANY number of children; to_subtree through its proved contract; "
                 "tip branch = a child of a furcation below which a single chain runs to a tip; its length is measured from the furcation")
 
